@@ -126,7 +126,7 @@ def aim(rng, kinds, op, reg, focus):
     return focus if (focus in c and rng.random() < .5) else rng.choice(c)
 
 
-EXTENDED = bool(os.environ.get('C18_EXTENDED'))
+EXTENDED = os.environ.get('C18_EXTENDED', '1') != '0'     # the repairs these operations depend on are on main now
 if EXTENDED:
     # operations that are in contract but hit defects of other properties still open on this head; to be switched on
     # once the repairs of C07 (D3), C11 (D9, D11, D12, F4), C15 (D7, D8, F6) and C16 (D6) are merged
